@@ -61,7 +61,7 @@ RULE = (
     'info, AVCTP, RTP, AdvertisingData, Address, UUID; oracle = reference bytes parse to the generated values and, as parsed '
     'and as a fresh object rebuilt from the parsed fields, re-serialise to the same bytes; the bytes bumble emits for the '
     'values equal the reference or bumble is at least self-consistent for them (then counted as layout deviation only); '
-    'history = operation lists over UUIDs of equal value and different width through UUID()/from_bytes/'
+    'after every successful parse the parsed object is edited in place (public int members, list/dict members) and the same bytes are parsed again: the second parse must serialise to the bytes again (parse_again_after_edit). history = operation lists over UUIDs of equal value and different width through UUID()/from_bytes/'
     'from_16_bits/from_32_bits/register/AD/SDP/ATT with "just parsed serialises to its bytes" after every '
     'step. non-trivial = unit exercises a multi-byte length form, a flag bit, a nested element, a non-zero '
     'field byte, or (history) follows an equal-valued UUID of another width; distinct by (class, bytes). '
@@ -1513,6 +1513,12 @@ def check_unit(ctx, reg: Reg, key, cls, pdu: bytes, values: dict, expected: dict
             return fail(f'reencode_raises/{site}/{type(e).__name__}', f'rebuilding a parsed {cls.__name__} from its fields raised {e!r}')
         if rebuilt != data:
             return fail(f'reencode/{site}', f'{cls.__name__} parsed from {what} and rebuilt from its fields serialises to {rebuilt[:48].hex()}')
+        # history: editing the parsed object must not show in the next parse of the same bytes
+        bad = parse_again_after_edit(lambda d: reg.parse(d, key), lambda o: reg.ser(o, reg.hdr_of(o, hdr)), parsed, data)
+        if bad is not None:
+            return fail(f'parse_again_after_edit/{site}', f'{what} parsed a second time, after the first parsed {cls.__name__} was edited in place, '
+                        f'gives {bad[:48].hex() if isinstance(bad, bytes) else repr(bad)}')
+        ctx.label('parsed_twice_with_edit')
         return True
 
     deviates = built != pdu
@@ -1810,6 +1816,57 @@ def run_avc(ctx, n) -> dict:
 # ---------------------------------------------------------------------------
 # generic oracle for hand-written codecs
 # ---------------------------------------------------------------------------
+def perturb(obj) -> bool:
+    """Edits a parsed object in place the way an application does before it forwards or answers (public attributes and
+    list/dict members only; best effort, errors ignored). Used for the history clause: what is done to one parsed
+    value must not show in the next parse of the same bytes."""
+    changed = False
+    try:
+        members = list(vars(obj).items())
+    except TypeError:
+        members = []
+    for k, v in members:
+        if k.startswith('__'):
+            continue
+        try:
+            if isinstance(v, list):
+                if v:
+                    v.append(v[0])
+                    del v[0]
+                    v.pop()
+                    v.clear()
+                else:
+                    v.append(0)
+            elif isinstance(v, dict):
+                if v:
+                    v.clear()
+                else:
+                    v[0] = 0
+            elif isinstance(v, bytearray):
+                v.extend(b'\x5a')
+            elif isinstance(v, (bytes, bool)) or v is None:
+                continue
+            elif isinstance(v, int) and not k.startswith('_'):
+                setattr(obj, k, int(v) ^ 1)
+            else:
+                continue
+            changed = True
+        except Exception:  # noqa: BLE001 - frozen / read-only members: nothing to perturb there
+            pass
+    return changed
+
+
+def parse_again_after_edit(parse, ser, parsed, data: bytes):
+    """None if a second parse of `data`, made after the first parsed object was edited, serialises to `data` again;
+    else what it serialises to (or the exception)."""
+    if not perturb(parsed):
+        return None
+    try:
+        return None if (out := ser(parse(data))) == data else out
+    except Exception as e:  # noqa: BLE001
+        return e
+
+
 def make_clauses(ctx, site, case, wire, parse, view, want, rebuild, ser=bytes, eq_obj=None, cmp=None):
     """Returns clauses(data, own, compare): parse `data`, compare its view with `want` (when compare), then require the
     parsed object and a fresh object rebuilt from it to serialise back to `data`.  own=True means `data` is what bumble
@@ -1847,6 +1904,11 @@ def make_clauses(ctx, site, case, wire, parse, view, want, rebuild, ser=bytes, e
             return fail(f'reencode_parsed/{site}', f'unit parsed from {what} serialises to {again[:40].hex()}')
         if rebuilt != data:
             return fail(f'reencode/{site}', f'unit parsed from {what} and rebuilt from its fields serialises to {rebuilt[:40].hex()}')
+        bad = parse_again_after_edit(parse, ser, parsed, data)
+        if bad is not None:
+            return fail(f'parse_again_after_edit/{site}', f'{what} parsed a second time, after the first parsed object was edited in place, '
+                        f'gives {bad[:40].hex() if isinstance(bad, bytes) else repr(bad)}')
+        ctx.label('parsed_twice_with_edit')
         return True
 
     return clauses
@@ -3627,6 +3689,7 @@ def run(ctx) -> None:
               'spec:capabilities', 'spec:uuid_rest', 'spec:list_group', 'spec:enum', 'spec:rest', 'spec:bytes']
     floors += [f'addr_type:{t}' for t in range(4)] + [f'sdp_type:{k}' for k in _DE_TYPES] + [f'sdp_idx:{i}' for i in range(8)]
     # extension families
+    ctx.floor('parsed_twice_with_edit', 100)
     for label in ('len16>=256:l2cap', 'len16>=256:sdp', 'len16>=256:avrcp_item'):
         ctx.floor(label, 2 if ctx.quick else 1)
     floors += ['att_view', 'att_view:records:2', 'big_body', 'body>=256:att',
